@@ -12,7 +12,7 @@ set_option maxRecDepth 1000000
 whose memory access is 8 bytes wide: the adjacent 4 bytes are overwritten. -/
 theorem mov_ok_fails_at_f7 :
     tUint32 ∈ types ∧ rXMM ∈ regClasses ∧ mFP ∈ memReps ∧
-    loadStore rows .store mFP rXMM tUint32 = some oMOVQ ∧
+    behave tab .store tUint32 rXMM mFP = some (some oMOVQ) ∧
     (movSem oMOVQ rXMM).map (·.memWidth) = some 8 ∧
     okAt .store tUint32 rXMM mFP = false ∧ okAt .load tUint32 rXMM mFP = false := by
   decide +kernel
